@@ -227,6 +227,12 @@ def _main(a, prop, seed, t0):
                             known_findings_printed=[k for k, _ in known_lines]),
               assumptions=trusted + list(getattr(mod, 'ASSUMPTIONS', [])),
               wall_s=round(wall, 2), violations=len(violations))
+    lean = getattr(mod, 'LEAN_LEMMAS', None)
+    if lean:
+        ev['coverage']['lean_lemmas'] = _lean_lemmas(lean, tier)
+        if ev['coverage']['lean_lemmas'].get('status') == 'failed':
+            print(f"CHECKER-ERROR property={prop} the Lean lemma file no longer checks: {lean}")
+            return 3
     if getattr(mod, 'EVIDENCE_LEVEL', None) == 'exploration' and rt:
         # only a part of the property is under deductive contracts: the property as a whole is claimed at the bounded level; the discharged obligations are reported as extra keys
         ev['level'] = 'exploration'
@@ -257,6 +263,28 @@ def _main(a, prop, seed, t0):
         for n, why in undecided: print(f"UNDECIDED property={prop} reason={why} [{n}]")
         return 2
     return 0
+
+def _lean_lemmas(rel, tier):
+    """lemmas cited by the algebraic layers, machine-checked by Lean 4 + Mathlib: re-checked on every thorough run (and when PYVC_LEAN=1); a quick run
+    compares the file with the hash recorded by the last successful check (lemmas/lean/CHECKED.json)"""
+    path = os.path.join(ROOT, rel); rec = os.path.join(os.path.dirname(path), 'CHECKED.json')
+    sha = hashlib.sha256(open(path, 'rb').read()).hexdigest()
+    out = dict(file=rel, sha256=sha, theorems=[l.split()[1] for l in open(path) if l.startswith('theorem ')])
+    if tier == 'thorough' or os.environ.get('PYVC_LEAN') == '1':
+        t = time.time()
+        try:
+            p = subprocess.run(['lean', path], capture_output=True, text=True, timeout=1800)
+            ok = p.returncode == 0 and not re.search(r': error', p.stdout + p.stderr) and 'sorry' not in (p.stdout + p.stderr)
+        except Exception as e:
+            ok = None; out['note'] = f'lean could not be run: {e}'
+        out['status'] = 'checked-on-this-run' if ok else ('failed' if ok is False else 'not-run')
+        out['seconds'] = round(time.time() - t, 1)
+        if ok: json.dump(dict(sha256=sha, lean='lean 4 + Mathlib (offline toolchain)'), open(rec, 'w'))
+    else:
+        try: prev = json.load(open(rec)).get('sha256')
+        except Exception: prev = None
+        out['status'] = 'unchanged-since-last-successful-lean-check' if prev == sha else 'NOT machine-checked in this state (run the thorough tier)'
+    return out
 
 def _evidence_path(prop):
     """evidence/<P>.json describes runs against /repo itself; a run against a scratch tree (PYVC_REPO_SRC, used for seeded changes) writes elsewhere"""
